@@ -3,7 +3,7 @@ EXTENDS HeaderSync, Json
 (* Bounded configurations of HeaderSync.tla, the unit-test vectors of the code's locator heights, and the
    behaviour generator for direction A (TLC -simulate; one JSON behaviour per finished walk). *)
 
-VARIABLES hist,   \* observation only: the steps with the expected values after each
+VARIABLES hist,   \* observation only: one record per state left behind (the action that led to it, its expected values)
           fin     \* simulation only: the walk has been closed
 mcvars == <<br, a, b, net, a0, used, rounds, last, hist, fin>>
 
@@ -28,13 +28,18 @@ ASSUME Variant = "code" =>
             /\ \A j \in 1..(Len(hs) - 1) : hs[j] > hs[j + 1]
             /\ \A j \in 2..(Len(hs) - 1) : hs[j - 1] - hs[j] = Pow2(j - 1)
 
+\* the spec's locator heights for a list of probe heights, printed once (compared by the driver with the code's
+\* get_locator_heights: also far above any chain the harness can build, where the cap of MAX_LOCATORS applies)
+CONSTANT ProbeHeights
+ASSUME ProbeHeights = {} \/ PrintT(<<"LOCHEIGHTS", ToJson([h \in ProbeHeights |-> LocatorHeights(h)])>>)
+
 \* --- projection written into the behaviours ---
 Stored(nd) == [k \in 1..Len(br) |-> Cardinality({i \in nd.hdrs : i > 0 /\ BranchOf(i) = k})]
 ChainOf(x) == [j \in 1..(Height(x) + 1) |-> AtHeight(x, j - 1)]
 CONSTANT FullChainUpTo      \* the header chain of A is written out in every step while the tree is this small
 ProjA == [hhead |-> a.hhead, sync |-> SyncHead(a), insync |-> a.insync, stored |-> Stored(a),
           bhead |-> b.hhead, due |-> Due, phi |-> Phi,
-          chain |-> IF N <= FullChainUpTo THEN ChainOf(a.hhead) ELSE <<>>]
+          chain |-> IF N <= FullChainUpTo \/ Quiescent THEN ChainOf(a.hhead) ELSE <<>>]
 StepRec == [k |-> last.k, x |-> last.x, y |-> last.y, res |-> last.res,
             loc |-> IF last.k = "Build" THEN net.loc ELSE <<>>,
             heights |-> IF last.k = "Build" THEN LocatorHeights(Height(a.sync)) ELSE <<>>,
@@ -44,7 +49,16 @@ StepRec == [k |-> last.k, x |-> last.x, y |-> last.y, res |-> last.res,
 
 MCInit == Init /\ hist = <<>> /\ fin = FALSE
 \* exhaustive configurations: no history
-MCNext == Next /\ UNCHANGED <<hist, fin>>
+\* (one named disjunct per action of the specification, so that -coverage reports each)
+cMintA == (\E la \in Lens, da \in Diffs : MintA(la, da)) /\ UNCHANGED <<hist, fin>>
+cMintB == (\E f \in 0..a0, lb \in Lens, db \in Diffs : MintB(f, lb, db)) /\ UNCHANGED <<hist, fin>>
+cReorg == (\E from \in Ids, len \in Lens, d \in Diffs : Reorg(from, len, d)) /\ UNCHANGED <<hist, fin>>
+cBuildLocator == BuildLocator /\ UNCHANGED <<hist, fin>>
+cLocateHeaders == LocateHeaders /\ UNCHANGED <<hist, fin>>
+cReceiveHeaders == ReceiveHeaders /\ UNCHANGED <<hist, fin>>
+cResetSync == ResetSync /\ UNCHANGED <<hist, fin>>
+cByz == (\E x \in Ids, k \in 1..MaxHeaders : Byz(x, k)) /\ UNCHANGED <<hist, fin>>
+MCNext == cMintA \/ cMintB \/ cReorg \/ cBuildLocator \/ cLocateHeaders \/ cReceiveHeaders \/ cResetSync \/ cByz
 MCSpec == MCInit /\ [][MCNext]_mcvars
 MCFairSpec == MCSpec /\ WF_mcvars(MCNext)
 
@@ -54,12 +68,14 @@ SimMintA == \E la \in {RandomElement(Lens)} : \E da \in {RandomElement(Diffs)} :
 SimMintB ==
   \E r \in {RandomElement(1..8)} :
   \E dep \in {IF r <= 2 THEN 0 ELSE IF r = 3 THEN 1 ELSE IF r = 4 THEN 2 ELSE IF r = 5 THEN 3
-              ELSE IF r = 6 THEN RandomElement(0..7) ELSE RandomElement(0..a0)} :
+              ELSE IF r = 6 THEN RandomElement(0..7) ELSE IF r = 7 THEN RandomElement(Lens) ELSE RandomElement(0..a0)} :
   \E f \in {IF dep >= a0 THEN 0 ELSE a0 - dep} :
-  \E lb \in {RandomElement(Fits)} : \E db \in {RandomElement(Diffs)} : MintB(f, lb, db)
+  \E ahead \in {{p \in Fits \X Diffs : Work(f) + p[1] * p[2] > Work(a0)}} :            \* mostly: B has more work than A
+  \E p \in {IF ahead # {} /\ RandomElement(1..8) <= 7 THEN RandomElement(ahead) ELSE RandomElement(Fits \X Diffs)} :
+     MintB(f, p[1], p[2])
 SimReorg ==
   \E r \in {RandomElement(1..8)} :
-  \E dep \in {RandomElement(1..4)} :
+  \E dep \in {IF RandomElement(1..3) = 1 THEN RandomElement(Lens) ELSE RandomElement(1..4)} :
   \E from \in {IF r <= 2 THEN b.hhead                                                     \* B simply grows
                ELSE IF r <= 5 THEN AtHeight(b.hhead, IF Height(b.hhead) > dep THEN Height(b.hhead) - dep ELSE 0)
                ELSE IF r = 6 THEN a.hhead                                                 \* B adopts A's chain and grows it
@@ -87,7 +103,7 @@ SimStep ==
          IF Quiescent
          THEN (IF coin <= 3 /\ Budget < MaxReorgs + MaxResets + MaxByz /\ SimDisturbAny THEN SimDisturb ELSE Finish)
          ELSE (IF coin = 1 /\ net.phase \in {"idle", "resp"} THEN (SimDisturb \/ Protocol) ELSE Protocol)
-SimNext == ~fin /\ SimStep /\ (fin' = fin \/ last'.k = "Finish") /\ hist' = Append(hist, StepRec')
+SimNext == ~fin /\ SimStep /\ (fin' = fin \/ last'.k = "Finish") /\ hist' = Append(hist, StepRec)
 MCSimSpec == MCInit /\ [][SimNext]_mcvars
 
 Behaviour == [ml |-> MaxLocators, mb |-> MaxHeaders, br |-> br, a0 |-> a0, steps |-> hist,
